@@ -829,8 +829,9 @@ def _returns_param(f, P) -> bool:
     return any(result)
 
 
-def rule_r8(rep, program: Program):
-    r = rep.rule("R8", "a cached value is never (a view of) a state variable array itself: copies share cache entries, so an in-place update of one state's array would change what another state's cache holds", floor=15)
+def rule_r8(rep, program: Program, prop=PROP, rule="R8"):
+    PROP = prop  # noqa: N806
+    r = rep.rule(rule, "a cached value is never (a view of) a state variable array itself: copies share cache entries, so an in-place update of one state's array would change what another state's cache holds", floor=15)
     P, n_bodies = pass_through_classes(program)
     r.inst({"matrix multiply bodies analysed": n_bodies, "left pass-through": sorted(P["_left_matrix_multiply"]), "right pass-through": sorted(P["_right_matrix_multiply"])})
     inplace = []
